@@ -5,6 +5,8 @@ import Driver.Tls
 import Driver.Acl
 import Driver.Translate
 import Driver.NameMap
+import Driver.Utf8
+import Driver.Repair
 /-
 Model driver: reads the op lines a harness engine wrote (first line `engine <name>`), runs the
 executable Lean model, prints one observation line per op line.  `/verif/check` diffs this
@@ -22,6 +24,8 @@ inductive St where
   | acl
   | translate
   | namemap
+  | utf8
+  | repair
 
 def initSt (engine : String) : Option St :=
   match engine with
@@ -33,6 +37,8 @@ def initSt (engine : String) : Option St :=
   | "acl" => some .acl
   | "translate" => some .translate
   | "namemap" => some .namemap
+  | "utf8" => some .utf8
+  | "repair" => some .repair
   | _ => Option.none
 
 def stepSt (st : St) (line : String) : St × String :=
@@ -46,6 +52,8 @@ def stepSt (st : St) (line : String) : St × String :=
   | .acl => (.acl, Drv.Acl.step line)
   | .translate => (.translate, Drv.Translate.step line)
   | .namemap => (.namemap, Drv.NameMap.step line)
+  | .utf8 => (.utf8, Drv.Utf8.step line)
+  | .repair => (.repair, Drv.Repair.step line)
 
 partial def loop (h : IO.FS.Stream) (out : IO.FS.Stream) (st : St) : IO Unit := do
   let line ← h.getLine
